@@ -60,8 +60,17 @@ def _differ(rng, cfg, kinds):
                 done.append("idS")
             else:
                 ida, idb = bytes.fromhex(a.get("idA", "")), bytes.fromhex(a.get("idB", ""))
-                c = rng.randrange(8)
-                if c >= 6:
+                c = rng.randrange(10)
+                if c >= 8:
+                    # the pair (x SEP y, z) and the pair (x, y SEP z): equal once joined with SEP
+                    sep = rng.choice([b"\x00", b"\x00", b":", b"|", b",", b" ", b"/"])
+                    x, y = gen.gen_bytes(rng, "short"), gen.gen_bytes(rng, "short")
+                    x, y = x.replace(sep, b"x"), y.replace(sep, b"y")
+                    z = idb
+                    a["idA"], a["idB"] = (x + sep + y).hex(), z.hex()
+                    b["idA"], b["idB"] = x.hex(), (y + sep + z).hex()
+                    done.append("ids-separator")
+                elif c >= 6:
                     which = rng.choice(["idA", "idB"])
                     old = ida if which == "idA" else idb
                     v = near_miss(rng, old)
@@ -111,7 +120,7 @@ def _differ(rng, cfg, kinds):
                 key = "S" if a["cls"] == "S" else rng.choice(["M", "N"])
                 old = worlds.seeds_of(ps0)[key]
                 while True:
-                    v = gen.gen_bytes(rng, rng.choice(["one", "short", "ascii"]))
+                    v = gen.gen_bytes(rng, rng.choice(["one", "short", "ascii", "empty", "nul"]))
                     if v != old:
                         break
                 ps1[key] = v.hex()
